@@ -15,6 +15,13 @@ try:
     for i in range(0, len(trip), 3):
         f, old, new = trip[i:i+3]
         src = files.get(f) or open('/repo/' + f).read()
+        nth = int(os.environ.get('MKC_NTH', '0'))
+        if nth:
+            parts = src.split(old)
+            if len(parts) <= nth:
+                sys.exit(f'{f}: OLD occurs {len(parts)-1} times, MKC_NTH={nth}')
+            files[f] = old.join(parts[:nth]) + new + old.join(parts[nth:])
+            continue
         if src.count(old) != 1:
             sys.exit(f'{f}: OLD occurs {src.count(old)} times')
         files[f] = src.replace(old, new)
